@@ -1,14 +1,252 @@
 import HalmosVerif.Lemmas.Contract
 /-
 Props.C19 — bytecode decoding and jump-destination validity follow the EVM.
+
+Model: `Model.Contract` (contract.py, branch for branch; constants and `insn_len` regenerated from the source into
+`Gen.Opcodes`).  Spec: `Spec.Code` (Yellow Paper §9.4.3 `D(c)`, `N(i,w)`, PUSH/CODECOPY reads).
+
+All theorems quantify over **every** chunk list `cs` the contract can be built from — hence every byte string, every
+position where the concrete prefix `_fastcode` ends (the first non-empty chunk, if concrete), every mixture of
+concrete chunks, numeral bytes inside symbolic chunks and unknown bytes — every `pc`/offset/size, and every valuation
+`σ` of the unknown bytes.  No bounds.
+
+Views of a model byte (Lemmas.Contract): `conc σ` = its value under `σ`; `known` = its value if known (native int
+or z3 numeral); `strict` = its value if it is a native Python int (what `type(opcode) is int` lets through).
 -/
 namespace HalmosVerif.Props.C19
 open HalmosVerif.Gen HalmosVerif.Model.Contract HalmosVerif.Lemmas.Contract
 open HalmosVerif.Spec
 
+/-- the code of the contract built from `cs`, under the valuation `σ` of its unknown bytes -/
+abbrev concCode (σ : Nat → Nat) (cs : List Chunk) : List Nat := (ofChunks cs).code.map (conc σ)
+
+/-- a chunk list with three chunks: `PUSH1 3; JUMP; JUMPDEST` | a PUSH2 whose data is one unknown and one numeral byte | `JUMPDEST` -/
+def exChunks : List Chunk := [.conc [0x60, 0x03, 0x56, 0x5b, 0x61], .symb [.sym 5, .num 0x5b], .conc [0x5b]]
+
+/-! ### the `insn_len` rule -/
+
 /-- the `insn_len` rule of the source is the Yellow Paper's `N(i, w) − i` -/
 theorem insn_len_eq (w : Nat) : insnLen w = 1 + Code.pushLen w := insnLen_eq w
 
-example : insnLen 0x7f = 33 ∧ insnLen 0x60 = 2 ∧ insnLen 0x5f = 1 ∧ insnLen 0x80 = 1 := by decide
+example : insnLen 0x7f = 33 ∧ insnLen 0x60 = 2 ∧ insnLen 0x5f = 1 ∧ insnLen 0x80 = 1 ∧ insnLen 0x5b = 1 := by decide
+
+/-! ### jump destinations -/
+
+/-- **Fully concrete code, however it is chunked** (wherever `_fastcode` ends, whichever PUSH straddles a chunk
+boundary): `valid_jumpdests()` terminates and is exactly the Yellow Paper's `D(c)`. -/
+theorem jumpdests_eq (bss : List (List Nat)) :
+    jumpdests (ofChunks (bss.map Chunk.conc)) = some (Code.validJumpdests bss.flatten) := by
+  rw [jumpdests_eq_sweep _ (ofChunks_wf _), ofChunks_code]
+  have : (bss.map Chunk.conc).flatMap Chunk.bytes = bss.flatten.map CodeByte.lit := by
+    induction bss with
+    | nil => rfl
+    | cons b r ih => simp [List.flatMap_cons, Chunk.bytes, ih]
+  rw [this, List.map_map]
+  have h2 : (strict ∘ CodeByte.lit) = (some : Nat → Option Nat) := by funext x; rfl
+  rw [h2]; exact congrArg some (sweepFrom_map_some _ 0 0)
+
+example : jumpdests (ofChunks [.conc [0x61], .conc [0x5b, 0x5b, 0x5b], .conc [], .conc [0x60, 0x5b, 0x5b]]) = some [3, 6] := by
+  decide
+
+/-- **Any code** (symbolic regions included): `valid_jumpdests()` terminates and is the linear sweep over the bytes that
+are native ints, up to the first opcode position holding anything else (an unknown byte *or* a numeral inside a
+symbolic chunk) — stated explicitly, not excluded. -/
+theorem jumpdests_sweep (cs : List Chunk) :
+    jumpdests (ofChunks cs) = some (Code.sweep ((ofChunks cs).code.map strict)) :=
+  jumpdests_eq_sweep _ (ofChunks_wf cs)
+
+example : jumpdests (ofChunks exChunks) = some [3, 7] := by decide
+
+/-- Yellow Paper fact used below: a position inside PUSH data (`skip` pending bytes) is never in `D_J`. -/
+theorem spec_push_data_never_valid (c : List Nat) (pc skip d : Nat) (h : d ∈ Code.jumpdestsFrom c pc skip) :
+    pc + skip ≤ d := jumpdestsFrom_ge c pc skip d h
+
+/-- **Execution never jumps into PUSH data**: whenever the JUMP/JUMPI check accepts `target` (and `advance` moves to
+`target + 1`), then for *every* value of the unknown bytes `target ∈ D(c)` — it is an instruction boundary holding the
+byte JUMPDEST. -/
+theorem never_jumps_into_push_data (cs : List Chunk) (target pc' : Nat) (h : jumpTo (ofChunks cs) target = some pc')
+    (σ : Nat → Nat) :
+    pc' = target + 1 ∧ Code.jumpAccepted (concCode σ cs) target = true ∧
+      target < (concCode σ cs).length ∧ Code.byteAt (concCode σ cs) target = Code.JUMPDEST := by
+  unfold jumpTo at h
+  rw [jumpdests_sweep] at h
+  simp only at h
+  split at h
+  · rename_i hc
+    have hm : target ∈ Code.sweep ((ofChunks cs).code.map strict) := by simpa using hc
+    have hv : target ∈ Code.validJumpdests (concCode σ cs) :=
+      sweepFrom_sound _ _ (matches_strict σ _) 0 0 target hm
+    have hb := jumpdestsFrom_byte _ 0 0 target hv
+    refine ⟨by simpa using h.symm, ?_, ?_, ?_⟩
+    · simpa [Code.jumpAccepted] using hv
+    · simpa using hb.2.1
+    · simpa [Code.byteAt] using hb.2.2
+  · simp at h
+
+example : jumpTo (ofChunks exChunks) 7 = some 8 := by decide
+example : jumpTo (ofChunks exChunks) 6 = none := by decide    -- 0x5b inside PUSH2 data
+
+/-- **Execution never rejects a genuine JUMPDEST**, provided the sweep meets only native-int bytes at opcode positions:
+then for every value of the unknown bytes every `d ∈ D(c)` is accepted and execution continues at `d + 1`. -/
+theorem accepts_every_jumpdest (cs : List Chunk)
+    (hb : Code.sweepBlocked ((ofChunks cs).code.map strict) = false) (σ : Nat → Nat) (d : Nat)
+    (hd : d ∈ Code.validJumpdests (concCode σ cs)) : jumpTo (ofChunks cs) d = some (d + 1) := by
+  have hs := sweepFrom_complete _ _ (matches_strict σ (ofChunks cs).code) 0 0 hb
+  unfold jumpTo
+  rw [jumpdests_sweep]
+  have : d ∈ Code.sweep ((ofChunks cs).code.map strict) := by unfold Code.sweep; rw [hs]; exact hd
+  simp [this]
+
+/-- unknown bytes confined to PUSH data do not block: the sweep of `exChunks` is complete -/
+example : Code.sweepBlocked ((ofChunks exChunks).code.map strict) = false := by decide
+
+/-- corollary for fully concrete code, however chunked: accepted ⇔ `d ∈ D(c)` -/
+theorem jump_accepted_iff_concrete (bss : List (List Nat)) (d : Nat) :
+    jumpTo (ofChunks (bss.map Chunk.conc)) d = (if Code.jumpAccepted bss.flatten d then some (d + 1) else none) := by
+  unfold jumpTo Code.jumpAccepted
+  rw [jumpdests_eq]
+
+/-- the sweep stops at, and yields nothing beyond, the first opcode position that is not a native int -/
+theorem jumpdests_below_stop (cs : List Chunk) (ds : List Nat) (h : jumpdests (ofChunks cs) = some ds) (d : Nat) (hd : d ∈ ds) :
+    d < Code.sweepStop ((ofChunks cs).code.map strict) := by
+  rw [jumpdests_sweep] at h
+  simp only [Option.some.injEq] at h
+  subst h
+  exact sweepFrom_lt_stop _ 0 0 d hd
+
+/-- Full-strength completeness — "every destination the EVM sweep over the *known* bytes reaches is accepted" — is
+**false of the current code**: a byte of a symbolic chunk that simplifies to a numeral is accepted by
+`decode_instruction` (via `int_of`) but ends the sweep of `__get_jumpdests` (`type(opcode) is not int`).
+Witness: `Contract(Concat(0x5b, x))`; replayed on the real code by tools/props/c19.py (`replay_numeral_witness`). -/
+theorem accepts_every_known_jumpdest_cex :
+    ¬ (∀ (cs : List Chunk) (d : Nat), d ∈ Code.sweep ((ofChunks cs).code.map known) → jumpTo (ofChunks cs) d = some (d + 1)) := by
+  intro h
+  have := h [.symb [.num 0x5b, .sym 1]] 0 (by decide)
+  exact absurd this (by decide)
+
+/-- what does hold with numerals present: without numeral bytes `strict` and `known` coincide, so the sweep over the known
+bytes is what `valid_jumpdests()` returns -/
+theorem jumpdests_known_of_no_numeral (cs : List Chunk) (h : ∀ b ∈ (ofChunks cs).code, ∀ x, b ≠ CodeByte.num x) :
+    jumpdests (ofChunks cs) = some (Code.sweep ((ofChunks cs).code.map known)) := by
+  rw [jumpdests_sweep, strict_eq_known _ h]
+
+example : ∀ b ∈ (ofChunks [.conc [0x7f], .symb [.sym 1, .sym 2], .conc [0x5b]]).code, ∀ x, b ≠ CodeByte.num x := by
+  intro b hb x
+  simp [ofChunks, Chunk.isEmpty, Chunk.bytes, SByte.toCode] at hb
+  rcases hb with rfl | rfl | rfl | rfl <;> simp
+
+/-! ### instruction decoding -/
+
+/-- **decode**: at a `pc` inside the code whose opcode byte is known (native int or numeral), `decode_instruction(pc)`
+succeeds and agrees with the EVM on opcode, next pc and — for every value of the unknown bytes — on the operand
+(big-endian value of the immediate, zero bytes beyond the end of the code). -/
+theorem decode_eq (cs : List Chunk) (pc op : Nat) (hpc : pc < (ofChunks cs).code.length)
+    (hop : getitem (ofChunks cs) pc = .lit op ∨ getitem (ofChunks cs) pc = .num op) (σ : Nat → Nat) :
+    ∃ insn, Model.Contract.decode (ofChunks cs) pc = .ok insn ∧
+      insn.opcode = (Code.decode (concCode σ cs) pc).opcode ∧
+      insn.pc = pc ∧
+      insn.nextPc = (Code.decode (concCode σ cs) pc).nextPc ∧
+      insn.operand.map (operandVal σ) = (Code.decode (concCode σ cs) pc).operand := by
+  rw [Lemmas.Contract.decode_eq, if_pos hpc]
+  exact decodeRaw_known σ _ (ofChunks_wf cs) pc op hop
+
+example : Model.Contract.decode (ofChunks exChunks) 4
+    = .ok { opcode := 0x61, pc := 4, nextPc := 7, operand := some [.sym 5, .num 0x5b] } := by rfl
+/-- a PUSH32 truncated by the end of the code: the operand is right-padded with zeros -/
+example : (Code.decode [0x7f, 0xab] 0).operand = some (0xab * 256 ^ 31) := by decide
+
+/-- **implicit STOP**: beyond the end of the code `decode_instruction` returns `Instruction.STOP`, the EVM's `w = STOP` -/
+theorem decode_past_end (cs : List Chunk) (pc : Nat) (hpc : (ofChunks cs).code.length ≤ pc) (σ : Nat → Nat) :
+    Model.Contract.decode (ofChunks cs) pc = .ok Insn.stop ∧
+      Insn.stop.opcode = (Code.decode (concCode σ cs) pc).opcode ∧ Insn.stop.operand = none ∧
+      (Code.decode (concCode σ cs) pc).operand = none := by
+  rw [Lemmas.Contract.decode_eq, if_neg (by omega)]
+  have : Code.byteAt (concCode σ cs) pc = 0 := by
+    have hn : (ofChunks cs).code[pc]? = none := List.getElem?_eq_none (by omega)
+    unfold Code.byteAt; simp [hn]
+  refine ⟨rfl, ?_, rfl, ?_⟩
+  · simp [Code.decode, this, Insn.stop, OP_STOP]
+  · simp [Code.decode, this, Code.pushLen, Code.PUSH1]
+
+example : Model.Contract.decode (ofChunks exChunks) 8 = .ok Insn.stop := by rfl
+
+/-- the error branch, explicitly: an unknown opcode byte makes `decode_instruction` raise `NotConcreteError` -/
+theorem decode_unknown_opcode (cs : List Chunk) (pc i : Nat) (hpc : pc < (ofChunks cs).code.length)
+    (h : getitem (ofChunks cs) pc = .sym i) : Model.Contract.decode (ofChunks cs) pc = .error .notConcrete := by
+  rw [Lemmas.Contract.decode_eq, if_pos hpc]; exact decodeRaw_sym _ pc i h
+
+example : Model.Contract.decode (ofChunks exChunks) 5 = .error .notConcrete := by rfl
+
+/-- the operand bytes are exactly the immediate (at most 32 bytes, so `uint256(...)` only zero-extends) -/
+theorem operand_length (cs : List Chunk) (pc : Nat) (insn : Insn) (bs : List CodeByte)
+    (h : decodeRaw (ofChunks cs) pc = .ok insn) (ho : insn.operand = some bs) :
+    bs.length = Code.pushLen insn.opcode ∧ bs.length ≤ 32 := by
+  have key : ∀ op, (bs = unwrappedSlice (ofChunks cs) (pc + 1) (pc + insnLen op) ∧ insn.opcode = op) →
+      bs.length = Code.pushLen insn.opcode ∧ bs.length ≤ 32 := by
+    intro op ⟨hb, ho'⟩
+    have hl : bs.length = insnLen op - 1 := by
+      have := congrArg List.length (unwrappedSlice_conc (fun _ => 0) (ofChunks cs) (ofChunks_wf cs) (pc + 1) (pc + insnLen op))
+      rw [List.length_map, read_length] at this
+      rw [hb, this]; omega
+    have h1 := insnLen_eq op
+    have h2 : Code.pushLen op ≤ 32 := by unfold Code.pushLen Code.PUSH1 Code.PUSH32; split <;> omega
+    rw [ho']; omega
+  unfold decodeRaw at h
+  cases hg : getitem (ofChunks cs) pc with
+  | sym i => simp [hg] at h
+  | lit op =>
+    simp only [hg] at h
+    split at h
+    · simp only [Except.ok.injEq] at h; subst h; simp only [Option.some.injEq] at ho; exact key op ⟨ho.symm, rfl⟩
+    · simp only [Except.ok.injEq] at h; subst h; simp at ho
+  | num op =>
+    simp only [hg] at h
+    split at h
+    · simp only [Except.ok.injEq] at h; subst h; simp only [Option.some.injEq] at ho; exact key op ⟨ho.symm, rfl⟩
+    · simp only [Except.ok.injEq] at h; subst h; simp at ho
+
+/-- the `_insn` cache is transparent: after any sequence of earlier `decode_instruction` calls, the answer is the one a
+fresh contract gives -/
+def cacheAfter (c : Contract) : List Nat → Cache
+  | [] => Cache.empty c
+  | pc :: earlier => (decodeInstruction c (cacheAfter c earlier) pc).2
+
+theorem decode_cache_transparent (cs : List Chunk) (history : List Nat) (pc : Nat) :
+    (decodeInstruction (ofChunks cs) (cacheAfter (ofChunks cs) history) pc).1 = Model.Contract.decode (ofChunks cs) pc := by
+  have hok : CacheOK (ofChunks cs) (cacheAfter (ofChunks cs) history) := by
+    induction history with
+    | nil => exact cacheOK_empty _
+    | cons p r ih => exact (decodeInstruction_cached _ _ ih p).2
+  exact (decodeInstruction_cached _ _ hok pc).1
+
+example : (decodeInstruction (ofChunks exChunks) (cacheAfter (ofChunks exChunks) [4, 0, 4, 9]) 4).1
+    = .ok { opcode := 0x61, pc := 4, nextPc := 7, operand := some [.sym 5, .num 0x5b] } := by rfl
+
+/-! ### code reads -/
+
+/-- **slice**: `slice(start, size)` with `size ≤ MAX_MEMORY_SIZE` returns, for every value of the unknown bytes, the EVM's
+zero-padded read (CODECOPY); larger sizes are refused with `OutOfGasError` (the guard of the real code, stated). -/
+theorem slice_eq_read (cs : List Chunk) (start size : Nat) (σ : Nat → Nat) :
+    (size ≤ MAX_MEMORY_SIZE → ∃ bs, slice (ofChunks cs) start size = .ok bs ∧
+        bs.map (conc σ) = Code.read (concCode σ cs) start size) ∧
+    (MAX_MEMORY_SIZE < size → slice (ofChunks cs) start size = .error .outOfGas) :=
+  slice_conc σ _ (ofChunks_wf cs) start size
+
+example : slice (ofChunks exChunks) 3 7 = .ok [.lit 0x5b, .lit 0x61, .sym 5, .num 0x5b, .lit 0x5b, .lit 0, .lit 0] := by rfl
+example : slice (ofChunks exChunks) 1 2 = .ok [.lit 0x03, .lit 0x56] := by rfl     -- fast path (stop < len(_fastcode))
+example : Code.read [1, 2, 3] 2 3 = [3, 0, 0] := by decide
+
+/-- `unwrapped_slice(start, stop)` (the PUSH operand read) is the same zero-padded read -/
+theorem unwrapped_slice_eq_read (cs : List Chunk) (start stop : Nat) (σ : Nat → Nat) :
+    (unwrappedSlice (ofChunks cs) start stop).map (conc σ) = Code.read (concCode σ cs) start (stop - start) :=
+  unwrappedSlice_conc σ _ (ofChunks_wf cs) start stop
+
+/-- **getitem**: `Contract[key]` is the code byte at `key`, `0` beyond the end -/
+theorem getitem_eq (cs : List Chunk) (key : Nat) (σ : Nat → Nat) :
+    conc σ (getitem (ofChunks cs) key) = Code.byteAt (concCode σ cs) key :=
+  getitem_conc σ _ (ofChunks_wf cs) key
+
+example : getitem (ofChunks exChunks) 5 = .sym 5 ∧ getitem (ofChunks exChunks) 7 = .lit 0x5b ∧
+    getitem (ofChunks exChunks) 8 = .lit 0 := by decide
 
 end HalmosVerif.Props.C19
